@@ -13,7 +13,9 @@
 //          | "W"                              this application calls mapper().map() now, i.e. before it is mounted
 //          | "C" re sel name tplhex tree     child: dispatcher().mount(re,child,sel) if re!="_",
 //                                                   mapper().mount(name,tpl,child) if name!="_"
-//   re    := "_" | "r"hex | "i"hex (icase)
+//   re    := "_" | "r"hex | "i"hex (icase) | "u"hex (utf8) | "v"hex (icase+utf8)
+//   kind  additionally: t | t:<grp>.<T>,…  (url_dispatcher::map with typed parameters; T: s string, i int, u unsigned, l long long, q unsigned long long)
+//   "CA" = like "C" but the child is handed over with application::add(…) instead of attach(…)
 #include "common.h"
 #include <cppcms/service.h>
 #include <cppcms/application.h>
@@ -40,6 +42,8 @@
 #include <cppcms/http_response.h>
 #include <cppcms/http_request.h>
 #include <cppcms/cppcms_error.h>
+#include <cppcms/encoding.h>
+#include <locale>
 #include <cppcms/json.h>
 #include <booster/regex.h>
 #include <pcre.h>
@@ -52,25 +56,25 @@ using vh::hex; using vh::unhex;
 typedef std::vector<std::string> words_t;
 
 // ---------------------------------------------------------------- parsed case
-struct re_tok { bool present; bool icase; std::string pat; re_tok():present(false),icase(false){} };
+struct re_tok { bool present; bool icase; bool utf8; std::string pat; re_tok():present(false),icase(false),utf8(false){} };
 static bool parse_re(std::string const &w,re_tok &r)
 {
 	r=re_tok();
 	if(w=="_") return true;
-	if(w.empty() || (w[0]!='r' && w[0]!='i')) return false;
-	r.present=true; r.icase=(w[0]=='i');
+	if(w.empty() || (w[0]!='r' && w[0]!='i' && w[0]!='u' && w[0]!='v')) return false;
+	r.present=true; r.icase=(w[0]=='i'||w[0]=='v'); r.utf8=(w[0]=='u'||w[0]=='v');
 	return unhex(w.substr(1),r.pat);
 }
 struct node_spec;
 struct item_spec {
 	char type; // L U C
 	// L
-	int id; re_tok re; bool has_meth; std::string meth; std::string kind; std::vector<int> sel; bool has_rej; int rej_g; std::string rej_v;
+	int id; re_tok re; bool has_meth; std::string meth; std::string kind; std::vector<int> sel; std::string types; bool has_rej; int rej_g; std::string rej_v;
 	// U
 	std::string key; bool key_empty; std::string tpl;
 	// C
-	int csel; bool has_name; std::string name; std::shared_ptr<node_spec> child;
-	item_spec():type(0),id(0),has_meth(false),has_rej(false),rej_g(0),key_empty(false),csel(0),has_name(false){}
+	int csel; bool has_name; bool use_add; std::string name; std::shared_ptr<node_spec> child;
+	item_spec():type(0),id(0),has_meth(false),has_rej(false),rej_g(0),key_empty(false),csel(0),has_name(false),use_add(false){}
 };
 struct node_spec { std::vector<item_spec> items; };
 
@@ -86,7 +90,19 @@ static bool parse_node(words_t const &w,size_t &i,node_spec &n)
 			if(!parse_re(w[i+2],it.re) || !it.re.present) return false;
 			if(w[i+3]!="_") { it.has_meth=true; if(!unhex(w[i+3],it.meth)) return false; }
 			std::string k=w[i+4];
-			if(k=="h0"||k=="rh"||k=="g") it.kind=k;
+			if(k=="h0"||k=="rh"||k=="g"||k=="t") it.kind=k;
+			else if(k.compare(0,2,"t:")==0) {
+				it.kind="t";
+				std::string rest=k.substr(2); size_t p=0;
+				while(p<=rest.size()) {
+					size_t e=rest.find(',',p); if(e==std::string::npos) e=rest.size();
+					std::string one=rest.substr(p,e-p); size_t dot=one.find('.');
+					if(dot==std::string::npos || dot+2!=one.size()) return false;
+					it.sel.push_back(atoi(one.substr(0,dot).c_str())); it.types.push_back(one[dot+1]);
+					p=e+1;
+				}
+				if(it.sel.empty()||it.sel.size()>3) return false;
+			}
 			else if(k.compare(0,3,"hN:")==0) {
 				it.kind="hN";
 				std::string rest=k.substr(3); size_t p=0;
@@ -112,9 +128,9 @@ static bool parse_node(words_t const &w,size_t &i,node_spec &n)
 			if(!unhex(w[i+1],it.key) || !unhex(w[i+2],it.tpl)) return false;
 			i+=3;
 		}
-		else if(w[i]=="C") {
+		else if(w[i]=="C" || w[i]=="CA") {
 			if(i+4>=w.size()) return false;
-			it.type='C';
+			it.type='C'; it.use_add=(w[i]=="CA");
 			if(!parse_re(w[i+1],it.re)) return false;
 			it.csel=atoi(w[i+2].c_str());
 			if(w[i+3]!="_") { it.has_name=true; if(!unhex(w[i+3],it.name)) return false; }
@@ -145,10 +161,58 @@ static std::string strs(std::vector<std::string> const &v)
 	std::string r; for(size_t i=0;i<v.size();i++) { if(i) r+=","; r+=hex(v[i]); } return r;
 }
 
+// ---------------------------------------------------------------- typed handlers (url_dispatcher::map with member functions)
+static std::string show(std::string const &v){ return v; }
+template<typename T> static std::string show(T v){ std::ostringstream ss; ss.imbue(std::locale::classic()); ss<<v; return ss.str(); }
+struct typed_h {
+	int id;
+	explicit typed_h(int i):id(i){}
+	void h0(){ g_log.push_back("R"+itos(id)+":"); }
+	template<typename A> void h1(A a){ g_log.push_back("R"+itos(id)+":"+strs({show(a)})); }
+	template<typename A,typename B> void h2(A a,B b){ g_log.push_back("R"+itos(id)+":"+strs({show(a),show(b)})); }
+	template<typename A,typename B,typename C> void h3(A a,B b,C c){ g_log.push_back("R"+itos(id)+":"+strs({show(a),show(b),show(c)})); }
+};
+template<typename T> struct tag { typedef T type; };
+template<typename F> static void with_type(char c,F f)
+{
+	switch(c) {
+	case 's': f(tag<std::string>()); break;
+	case 'i': f(tag<int>()); break;
+	case 'u': f(tag<unsigned>()); break;
+	case 'l': f(tag<long long>()); break;
+	case 'q': f(tag<unsigned long long>()); break;
+	default: throw std::runtime_error("spec: parameter type");
+	}
+}
+struct typed_reg {
+	cppcms::url_dispatcher &d; bool has_meth; std::string meth; booster::regex re; typed_h *h; std::vector<int> g;
+	void r0() { if(has_meth) d.map(meth,re,&typed_h::h0,h); else d.map(re,&typed_h::h0,h); }
+	template<typename A> void r1() { if(has_meth) d.map(meth,re,&typed_h::h1<A>,h,g[0]); else d.map(re,&typed_h::h1<A>,h,g[0]); }
+	template<typename A,typename B> void r2() { if(has_meth) d.map(meth,re,&typed_h::h2<A,B>,h,g[0],g[1]); else d.map(re,&typed_h::h2<A,B>,h,g[0],g[1]); }
+	template<typename A,typename B,typename C> void r3() { if(has_meth) d.map(meth,re,&typed_h::h3<A,B,C>,h,g[0],g[1],g[2]); else d.map(re,&typed_h::h3<A,B,C>,h,g[0],g[1],g[2]); }
+	void go(std::string const &t)
+	{
+		if(t.empty()) { r0(); return; }
+		with_type(t[0],[&](auto a){ typedef typename decltype(a)::type A;
+			if(t.size()==1) { this->template r1<A>(); return; }
+			with_type(t[1],[&](auto b){ typedef typename decltype(b)::type B;
+				if(t.size()==2) { this->template r2<A,B>(); return; }
+				// third parameter: string or int only (keeps the number of instantiations bounded)
+				if(t[2]=='s') this->template r3<A,B,std::string>();
+				else if(t[2]=='i') this->template r3<A,B,int>();
+				else throw std::runtime_error("spec: third parameter type");
+			});
+		});
+	}
+};
+
 // ---------------------------------------------------------------- the application built from a node_spec
 class app : public cppcms::application {
 public:
 	std::vector<app*> kids; // in item order of the C items
+	std::vector<app*> added; // children handed over with add(): owned here
+	std::vector<std::unique_ptr<typed_h> > typed;
+	~app() { for(size_t i=0;i<added.size();i++) delete added[i]; }
 	app(cppcms::service &s,node_spec const &n) : cppcms::application(s)
 	{
 		for(size_t k=0;k<n.items.size();k++) {
@@ -165,7 +229,14 @@ public:
 			else {
 				app *c=new app(s,*it.child);
 				kids.push_back(c);
-				if(it.re.present && it.has_name) attach(c,it.name,it.tpl,it.re.pat,it.csel);
+				if(it.use_add) {
+					added.push_back(c);
+					if(it.re.present && it.has_name) add(*c,it.name,it.tpl,it.re.pat,it.csel);
+					else if(it.re.present) add(*c,it.re.pat,it.csel);
+					else if(it.has_name) add(*c,it.name,it.tpl);
+					else add(*c);
+				}
+				else if(it.re.present && it.has_name) attach(c,it.name,it.tpl,it.re.pat,it.csel);
 				else if(it.re.present) attach(c,it.re.pat,it.csel);
 				else if(it.has_name) attach(c,it.name,it.tpl);
 				else attach(c);
@@ -176,8 +247,15 @@ public:
 	{
 		int id=it.id;
 		std::string const &p=it.re.pat;
+		int flags=(it.re.icase ? int(booster::regex::icase) : 0)|(it.re.utf8 ? int(booster::regex::utf8) : 0);
+		if(it.kind=="t") {
+			typed.push_back(std::unique_ptr<typed_h>(new typed_h(id)));
+			typed_reg r={dispatcher(),it.has_meth,it.meth,booster::regex(p,flags),typed.back().get(),it.sel};
+			r.go(it.types);
+			return;
+		}
 		if(it.kind=="g") {
-			booster::regex re(p,it.re.icase ? int(booster::regex::icase) : 0);
+			booster::regex re(p,flags);
 			bool has_rej=it.has_rej; int g=it.rej_g; std::string v=it.rej_v;
 			cppcms::url_dispatcher::generic_handler h=[id,has_rej,g,v](cppcms::application &,booster::cmatch const &m) -> bool {
 				if(has_rej && m[g].str()==v) { g_log.push_back("X"+itos(id)+":"+all_groups(m)); return false; }
@@ -186,7 +264,7 @@ public:
 			if(it.has_meth) dispatcher().map_generic(it.meth,re,h); else dispatcher().map_generic(re,h);
 			return;
 		}
-		if(it.re.icase || it.has_meth) throw std::runtime_error("spec: icase/method only on generic options");
+		if(it.re.icase || it.re.utf8 || it.has_meth) throw std::runtime_error("spec: flags/method only on generic options");
 		typedef std::string S;
 		if(it.kind=="h0") dispatcher().assign(p,[id](){ g_log.push_back("R"+itos(id)+":"); });
 		else if(it.kind=="rh") dispatcher().assign_generic(p,[id](booster::cmatch const &m){ g_log.push_back("R"+itos(id)+":"+all_groups(m)); });
@@ -230,19 +308,22 @@ static std::string join_log()
 }
 
 // ---------------------------------------------------------------- direct libpcre oracle
-struct pat_key { bool icase; std::string pat; bool operator<(pat_key const &o) const { return icase!=o.icase ? icase<o.icase : pat<o.pat; } };
-static std::string tok(pat_key const &k){ return std::string(k.icase?"i":"r")+hex(k.pat); }
+struct pat_key { int fl; std::string pat; bool operator<(pat_key const &o) const { return fl!=o.fl ? fl<o.fl : pat<o.pat; } };
+static int fl_of(re_tok const &r){ return (r.icase?1:0)|(r.utf8?2:0); }
+static std::string tok(pat_key const &k){ static char const c[]="riuv"; return std::string(1,c[k.fl&3])+hex(k.pat); }
 
+static bool g_want_valid=false; // the case has typed handlers: record cppcms::encoding::valid for every subject
 static void collect_patterns(node_spec const &n,std::set<pat_key> &ps)
 {
 	for(size_t k=0;k<n.items.size();k++) {
 		item_spec const &it=n.items[k];
 		if(it.type=='L') {
-			pat_key pk={it.re.icase,it.re.pat}; ps.insert(pk);
-			if(it.has_meth) { pat_key mk={false,it.meth}; ps.insert(mk); }
+			pat_key pk={fl_of(it.re),it.re.pat}; ps.insert(pk);
+			if(it.has_meth) { pat_key mk={0,it.meth}; ps.insert(mk); }
+			if(it.kind=="t") g_want_valid=true;
 		}
 		else if(it.type=='C') {
-			if(it.re.present) { pat_key pk={it.re.icase,it.re.pat}; ps.insert(pk); }
+			if(it.re.present) { pat_key pk={fl_of(it.re),it.re.pat}; ps.insert(pk); }
 			collect_patterns(*it.child,ps);
 		}
 	}
@@ -255,7 +336,7 @@ static std::string oracle_words(std::set<pat_key> const &ps,std::set<std::string
 	std::ostringstream out;
 	std::map<pat_key,compiled> cs;
 	for(std::set<pat_key>::const_iterator p=ps.begin();p!=ps.end();++p) {
-		compiled c; char const *err=0; int off=0; int fl=p->icase?PCRE_CASELESS:0;
+		compiled c; char const *err=0; int off=0; int fl=((p->fl&1)?PCRE_CASELESS:0)|((p->fl&2)?PCRE_UTF8:0);
 		// the pattern as written must compile (this is where the group count comes from) …
 		c.plain=pcre_compile(p->pat.c_str(),fl,&err,&off,0);
 		// … and so must "(?:" pattern ")\z", the expression whose anchored match at offset 0 is the oracle
@@ -290,6 +371,14 @@ static std::string oracle_words(std::set<pat_key> const &ps,std::set<std::string
 		}
 	}
 	for(std::map<pat_key,compiled>::iterator c=cs.begin();c!=cs.end();++c) { if(c->second.plain) pcre_free(c->second.plain); if(c->second.anch) pcre_free(c->second.anch); }
+	if(g_want_valid) {
+		// second external of the typed handlers: "valid text in the request's encoding" (cppcms::encoding::valid, called directly)
+		std::locale loc=make_context("GET")->locale();
+		for(std::set<std::string>::const_iterator s=done.begin();s!=done.end();++s) {
+			size_t n=0;
+			out<<" V "<<hex(*s)<<" "<<(cppcms::encoding::valid(loc,s->data(),s->data()+s->size(),n)?"1":"0");
+		}
+	}
 	std::string r=out.str();
 	return r.empty()? r : r.substr(1);
 }
@@ -304,7 +393,7 @@ static bool parse_mp(words_t const &w,size_t &i,mp_spec &m)
 	m.group=atoi(w[i+3].c_str()); m.sel_path=(w[i+4]=="1");
 	i+=5; return true;
 }
-static booster::regex mk_re(re_tok const &r){ return r.present ? booster::regex(r.pat,r.icase?int(booster::regex::icase):0) : booster::regex(); }
+static booster::regex mk_re(re_tok const &r){ return r.present ? booster::regex(r.pat,(r.icase?int(booster::regex::icase):0)|(r.utf8?int(booster::regex::utf8):0)) : booster::regex(); }
 static cppcms::mount_point mk_mp(mp_spec const &m)
 {
 	return cppcms::mount_point(m.sel_path?cppcms::mount_point::match_path_info:cppcms::mount_point::match_script_name,
@@ -313,7 +402,7 @@ static cppcms::mount_point mk_mp(mp_spec const &m)
 static void mp_patterns(mp_spec const &m,std::set<pat_key> &ps)
 {
 	re_tok const *r[3]={&m.host,&m.script,&m.path};
-	for(int i=0;i<3;i++) if(r[i]->present) { pat_key k={r[i]->icase,r[i]->pat}; ps.insert(k); }
+	for(int i=0;i<3;i++) if(r[i]->present) { pat_key k={fl_of(*r[i]),r[i]->pat}; ps.insert(k); }
 }
 
 // ---------------------------------------------------------------- error enums
@@ -436,6 +525,7 @@ static cppcms::json::value service_config()
 	cfg["service"]["socket"]="c20-unused.sock"; // never opened: the service is not run
 	cfg["misc"]["invalid_url_throws"]=true;
 	cfg["http"]["script"]="/s";
+	cfg["localization"]["locales"][0]="en_US.UTF-8"; // request text is UTF-8 (validate_encoding of typed parameters)
 	return cfg;
 }
 
@@ -614,6 +704,7 @@ static std::string run(words_t const &w)
 {
 	if(w.empty()) return "bad-op";
 	std::vector<words_t> s=sections(w);
+	g_want_valid=false;
 	if(g_oracle) {
 		// oracle mode answers with oracle words only; a case the real code rejects has none
 		g_oracle=false; std::string r;
